@@ -32,6 +32,7 @@ RULE = (
     "Parquet row groups {1,3,prime,n,default}, one variant for every further integer tunable discovered in mokapot.constants, pairs of constants, and Parquet or several workers combined with a chunk size}; env class: the same comparison with MOKAPOT_* variables in fresh "
     "interpreters; schedule class: tie-heavy scores, identical chunk sizes, 1 worker vs 2..8 workers under perturbed task schedules, result files compared byte for byte. Non-trivial = a variant whose chunk size is smaller than the table, or >1 worker with >=2 "
     "threads observed, or Parquet input; distinct = (table seed, variant)."
+    " Every sixth table is rescored with ensemble=True (baseline and variants)."
 )
 ASSUMPTIONS = [
     "tolerances: scores rtol 1e-9 for the closed-form learner, 2e-3 for LinearSVC on text-vs-Parquet only (its iterative solver, tol 1e-4, amplifies the 1-ulp feature differences of pandas' float parser; differences up to 5e-5 were observed); q-values rtol 1e-5 (float32 / text formatting); PEPs rtol 1e-6 when the scores of both runs are bit-identical, else not compared numerically (triqler's spline fit amplifies a 1-ulp score difference to PEP differences of several percent)",
@@ -178,6 +179,9 @@ def run_inproc(case):
         common = dict(learner=["linear", "svc", "online", "logit:proba"][case["index"] % 4], folds=int(2 + case["index"] % 3), seed=int(rng.integers(1 << 30)),
                       test_fdr=0.1, train_fdr=0.1, max_iter=2, dedup=bool(case["index"] % 4 != 3), rollup=True,
                       peps_algorithm=["kde_nnls", "qvality", "kde_nnls"][case["index"] % 3])
+        # every sixth table is rescored in ensemble mode (every fold model scores every PSM; another prediction path)
+        if case["index"] % 6 == 2:
+            common["ensemble"] = True
         if tab.get("db") is not None:
             from vf.gens import prot
 
@@ -187,7 +191,7 @@ def run_inproc(case):
         bfiles = read_files(d / "base") if base["status"] == "ok" else {}
         res.count("pipeline_runs")
         extra = dict(rows=n, dedup=common["dedup"], learner=common["learner"], folds=common["folds"],
-                     n_features=len(tab["features"]))
+                     n_features=len(tab["features"]), ensemble=bool(common.get("ensemble")))
         if base["status"] != "ok" and not base.get("explicit"):
             # a failure of the baseline configuration itself is not a statement about chunking (the PEP estimators'
             # own failures are C06's business); the variants must then fail in the same way, which compare() checks
